@@ -65,6 +65,9 @@ var hostileFrags = []string{
 	"calc(expression(alert(1)))", "calc(url(//e.example/x))", "calc(100% - url(javascript:x))", "var(--x, url(//e.example/x))", "min(1px, expression(alert(1)))",
 	// url() arguments that merely begin with the letters http
 	"url(httpx://e.x/a)", "url(httpdata:x)", "url(http:javascript:x)", "url(https:e.x/a)",
+	// an escaped quote at the start of an unquoted url is part of the URL for a browser (a relative reference), the
+	// opening quote of a string for whoever judges the decoded text
+	`url(\22http://../../../logout)`, `url(\27http://../x)`, `url(\"http://../x)`, `u\72l(\22 http://../x)`,
 }
 
 // containsHostile is the independent scanner for the constructs the property names.
@@ -368,20 +371,25 @@ func runC18(c *run.Ctx) {
 				c.Outcome("e2e|good-kept")
 			}
 			// one hostile candidate per good value and fragment (middle position)
-			for _, hf := range hostileFrags {
-				cand := g[:len(g)/2] + hf + g[len(g)/2:]
-				doc := "<p style=" + htmlAttrQuote(strings.ReplaceAll(prop+": "+cand, "&", "&amp;")) + ">t</p>"
-				out, pm := San(e2e.P, doc)
-				c.Eval()
-				c.Transitions++
-				if pm != "" {
-					c.Violate("panic|e2e", "Sanitize panicked: "+pm, c18Case{prop, run.B64([]byte(cand)), run.Q(cand), "e2e-hostile"})
-					continue
-				}
-				if w := e2eHostileSurvives(out); w != "" {
-					c.Violate("e2e-accepts|"+prop+"|"+hostileClass(cand), fmt.Sprintf("Sanitize with the default handler for %s kept %s; input=%s output=%s", prop, run.Q(w), run.Q(doc), run.Q(out)), c18Case{prop, run.B64([]byte(cand)), run.Q(cand), "e2e-hostile"})
-				} else {
-					c.Outcome("e2e|hostile-removed")
+			for hi, hf := range hostileFrags {
+				for ci, cand := range []string{g[:len(g)/2] + hf + g[len(g)/2:], g + " " + hf, hf + " " + g, hf} {
+					if ci == 3 && gi >= c.NShards {
+						continue // the fragment alone: once per shard is enough
+					}
+					_ = hi
+					doc := "<p style=" + htmlAttrQuote(strings.ReplaceAll(prop+": "+cand, "&", "&amp;")) + ">t</p>"
+					out, pm := San(e2e.P, doc)
+					c.Eval()
+					c.Transitions++
+					if pm != "" {
+						c.Violate("panic|e2e", "Sanitize panicked: "+pm, c18Case{prop, run.B64([]byte(cand)), run.Q(cand), "e2e-hostile"})
+						continue
+					}
+					if w := e2eHostileSurvives(out); w != "" {
+						c.Violate("e2e-accepts|"+prop+"|"+hostileClass(cand), fmt.Sprintf("Sanitize with the default handler for %s kept %s; input=%s output=%s", prop, run.Q(w), run.Q(doc), run.Q(out)), c18Case{prop, run.B64([]byte(cand)), run.Q(cand), "e2e-hostile"})
+					} else {
+						c.Outcome("e2e|hostile-removed")
+					}
 				}
 			}
 		}
@@ -488,6 +496,20 @@ func e2eHostileSurvives(out string) string {
 			for _, d := range decls {
 				if containsHostile(strings.ToLower(obs.CSSDecode(d.val))) {
 					return d.prop + ": " + d.val
+				}
+				// unquoted url tokens as a browser delimits them in the text as written: the argument, escapes
+				// decoded, is the URL (quotes that come out of escapes are part of it)
+				for i := 0; i < len(d.val); i++ {
+					if d.val[i] != '(' {
+						continue
+					}
+					if end, isURL := urlTokenEnd(d.val, i); isURL {
+						arg := strings.ToLower(strings.TrimSpace(obs.CSSDecode(strings.TrimSuffix(d.val[i+1:end], ")"))))
+						if !strings.HasPrefix(arg, "http://") && !strings.HasPrefix(arg, "https://") {
+							return d.prop + ": " + d.val
+						}
+						i = end - 1
+					}
 				}
 			}
 		}
